@@ -75,6 +75,12 @@ class Check:
         self.build_log = ''
         os.makedirs(os.path.join(ROOT, 'evidence'), exist_ok=True)
         os.makedirs(os.path.join(ROOT, 'replays'), exist_ok=True)
+        import glob
+        for old in glob.glob(os.path.join(ROOT, 'replays', f'{pid}_*.json')):
+            try:
+                os.remove(old)
+            except OSError:
+                pass
         kf = os.path.join(ROOT, 'known_findings.json')
         self.known_findings = json.load(open(kf)) if os.path.exists(kf) else {'findings': [], 'fixed': []}
 
